@@ -9,7 +9,7 @@
    Print Assumptions, and the statements that are not proved (Definition C05_full_...). *)
 From Coq Require Import Permutation.
 From SV Require Import Base.Prelude Model.Mailbox Proof.MailboxFacts Proof.MailboxProof Proof.MailboxInOrder
-  Proof.MailboxTermination Model.MailboxDivider Proof.MailboxDividerProof Proof.MailboxNumbered.
+  Proof.MailboxTermination Model.MailboxDivider Proof.MailboxDividerProof Proof.MailboxDividerLive Proof.MailboxNumbered.
 Local Open Scope nat_scope.
 
 (* Every subscriber's delivered sequence is a prefix of the sent messages in number order with futures
@@ -154,6 +154,26 @@ Theorem C05_mailbox_explicit_numbering_safe_partial :
 Proof. exact numbered_delivery_safe. Qed.
 Print Assumptions C05_mailbox_explicit_numbering_safe_partial.
 
+(* Deadlock freedom of the divider system (Proof/MailboxDividerLive.v): every reachable state has an
+   enabled thread or everything has finished -- any number of mailboxes with at least one subscriber each,
+   capacity >= 1, lazy or eager, any flow-freely set, a driving subscriber on every gated mailbox, plain
+   messages.  (An accounting invariant ties the divider's pc and the dicts still to fetch to each
+   component's phase and remaining items; then the single-mailbox lemma is applied to the mailbox the
+   divider is working on.)  Failure paths of divide_outputs are outside the model. *)
+Theorem C05_divider_deadlock_free :
+  forall (dc : dconfig) (subs : list (list bool)) (comps : list (list msg)) (ndicts : nat),
+    0 < length subs -> length comps = length subs ->
+    (forall j dr, nth_error subs j = Some dr -> dr <> []) ->
+    (forall j ms, nth_error comps j = Some ms ->
+       length ms = ndicts /\ forall m, In m ms -> exists v, m = Plain v) ->
+    (forall c, dc_cap dc = Some c -> 1 <= c) ->
+    (forall j dr, nth_error subs j = Some dr -> gated dc j = true -> In true dr) ->
+    forall (sched : list dtid) (ds : dstate),
+      drun dc (dinit dc subs comps ndicts) sched = Some ds ->
+      (exists t, denabled ds t = true) \/ d_all_terminal ds = true.
+Proof. exact divider_deadlock_free. Qed.
+Print Assumptions C05_divider_deadlock_free.
+
 (* ---------------- stated, not proved ---------------- *)
 
 (* Explicit numbering, the liveness half: deadlock freedom (and hence complete delivery) when the
@@ -181,18 +201,3 @@ Definition C05_full_mailbox_explicit_numbering : Prop :=
       run cfg (init cfg drives (numbered_source items) None nfut) sched = Some st ->
       ((exists t, enabled st t = true) \/ all_terminal st = true) /\
       (all_terminal st = true -> forall i r, nth_error (rds st) i = Some r -> r_pc r = RDone).
-
-(* Deadlock freedom of the divider system is not proved: the divider serves its mailboxes in a fixed order,
-   which restricts when the sender steps of each mailbox can happen, so it does not follow from the
-   single-mailbox theorem.  The model's complete reachable state graphs are checked to be deadlock-free
-   for the configurations the correspondence enumerates, and the implementation is explored. *)
-Definition C05_full_divider_deadlock_free : Prop :=
-  forall (dc : dconfig) (subs : list (list bool)) (comps : list (list msg)) (ndicts : nat),
-    subs <> [] -> length comps = length subs -> length (dc_ff dc) = length subs ->
-    (forall dr, In dr subs -> dr <> []) ->
-    (forall ms, In ms comps -> length ms = ndicts /\ forall m, In m ms -> exists v, m = Plain v) ->
-    (forall c, dc_cap dc = Some c -> 1 <= c) ->
-    (forall j dr, nth_error subs j = Some dr -> gated dc j = true -> In true dr) ->
-    forall (sched : list dtid) (ds : dstate),
-      drun dc (dinit dc subs comps ndicts) sched = Some ds ->
-      (exists t, denabled ds t = true) \/ d_all_terminal ds = true.
